@@ -27,7 +27,12 @@ Holders == {
     [name |-> "entities",  kind |-> "shared"],   \* archetype.entities()
     [name |-> "bslice",    kind |-> "shared"],   \* archetype.borrow_slice::<C>()
     [name |-> "archref",   kind |-> "shared"],   \* world.archetype::<A>()
-    [name |-> "archmut",   kind |-> "mut"] }     \* world.archetype_mut::<A>()
+    [name |-> "archmut",   kind |-> "mut"],      \* world.archetype_mut::<A>()
+    [name |-> "bentity",   kind |-> "shared"],   \* borrow.entity()
+    [name |-> "viewent",   kind |-> "mut"],      \* view.entity (handle reference inside a view)
+    [name |-> "bslicemut", kind |-> "shared"],   \* archetype.borrow_slice_mut::<C>() (RefMut guard, world shared)
+    [name |-> "entrefany", kind |-> "shared"],   \* <&EntityAny>::from(&archetype.entities()[0])
+    [name |-> "entsel",    kind |-> "shared"] }  \* &Entity<A> taken from entities() and kept as a reference
 
 Intruders == {
     [name |-> "create",    kind |-> "mut"],
@@ -40,7 +45,14 @@ Intruders == {
     [name |-> "clone",     kind |-> "shared"],
     [name |-> "contains",  kind |-> "shared"],
     [name |-> "len",       kind |-> "shared"],
-    [name |-> "iterbq",    kind |-> "shared"] }  \* ecs_iter_borrow!(world, ..)
+    [name |-> "iterbq",    kind |-> "shared"],   \* ecs_iter_borrow!(world, ..)
+    [name |-> "slice2",    kind |-> "mut"],      \* a second get_slice (takes &mut self)
+    [name |-> "slicemut2", kind |-> "mut"],      \* a second get_slice_mut of another column
+    [name |-> "slices2",   kind |-> "mut"],      \* get_all_slices_mut
+    [name |-> "bslice2",   kind |-> "shared"],   \* borrow_slice of another column
+    [name |-> "findq",     kind |-> "mut"],      \* ecs_find!(world, e2, ..)
+    [name |-> "findbq",    kind |-> "shared"],   \* ecs_find_borrow!(world, e2, ..)
+    [name |-> "todirect",  kind |-> "shared"] }  \* world.to_direct(e2)
 
 Orders == {"overlap", "sequential"}
 
